@@ -86,6 +86,7 @@ struct MIndex {
     unique: bool,
     cols: Vec<(String, bool)>,
     filter: Option<(String, i64)>,
+    filter_more: Vec<i64>,
 }
 
 #[derive(Clone, Debug, Default)]
@@ -227,12 +228,16 @@ fn check_table(chk: &Chk, rep: &mut Report, db: &Db, t: &Tbl, model: &Model, sql
     let il = db.rows(&format!("SELECT name, \"unique\", origin, partial FROM pragma_index_list({tn})")).unwrap_or_default();
     let mut engine_uniques: Vec<Vec<String>> = vec![];
     let mut engine_created: Vec<MIndex> = vec![];
+    let mut engine_auto: Vec<Vec<(String, bool)>> = vec![];
     for r in &il {
         let iname = text_of(&r[0]);
         let cols = db
             .rows(&format!("SELECT name, \"desc\" FROM pragma_index_xinfo({}) WHERE key = 1 ORDER BY seqno", sqlite_str(&iname)))
             .unwrap_or_default();
         let cs: Vec<(String, bool)> = cols.iter().map(|c| (text_of(&c[0]), int_of(&c[1]) == 1)).collect();
+        if matches!(text_of(&r[2]).as_str(), "u" | "pk") {
+            engine_auto.push(cs.clone());
+        }
         match text_of(&r[2]).as_str() {
             "u" => engine_uniques.push(cs.iter().map(|c| c.0.clone()).collect()),
             "c" => {
@@ -241,7 +246,8 @@ fn check_table(chk: &Chk, rep: &mut Report, db: &Db, t: &Tbl, model: &Model, sql
                     .ok()
                     .and_then(|r| r.first().map(|r| text_of(&r[0])))
                     .unwrap_or_default();
-                engine_created.push(MIndex { name: iname, table: t.name.clone(), unique: int_of(&r[1]) == 1, cols: cs, filter: parse_filter(&filter_sql, int_of(&r[3]) == 1) });
+                let (filter, filter_more) = parse_filter(&filter_sql, int_of(&r[3]) == 1);
+                engine_created.push(MIndex { name: iname, table: t.name.clone(), unique: int_of(&r[1]) == 1, cols: cs, filter, filter_more });
             }
             _ => {}
         }
@@ -261,6 +267,22 @@ fn check_table(chk: &Chk, rep: &mut Report, db: &Db, t: &Tbl, model: &Model, sql
     if a != b {
         chk.viol(rep, "R.catalogue", "UNIQUE constraints differ".into(), json!({"declared": want_uniques, "engine": engine_uniques, "sql": sql}));
         return false;
+    }
+    // direction of the automatic indexes behind PRIMARY KEY / UNIQUE: SQLite merges keys over the same column
+    // list (the first one's directions survive), so each automatic index must carry the directions of some
+    // declared key over exactly its columns
+    let mut declared_keys: Vec<Vec<(String, bool)>> = t.cols.iter().filter(|c| c.has(|s| matches!(s, CS::Unique | CS::PrimaryKey))).map(|c| vec![(c.name.clone(), false)]).collect();
+    for ix in t.indexes.iter().filter(|i| i.unique || i.primary) {
+        declared_keys.push(ix.cols.iter().map(|c| (c.0.clone(), c.1 == Some(true))).collect());
+    }
+    for e in &engine_auto {
+        if !declared_keys.contains(e) {
+            chk.viol(rep, "R.catalogue", "key column directions differ".into(), json!({"declared_keys": format!("{declared_keys:?}"), "engine_index": format!("{e:?}"), "sql": sql}));
+            return false;
+        }
+        if e.iter().any(|c| c.1) {
+            rep.count("descending_key_columns_introspected", 1);
+        }
     }
     let mut want_created: Vec<MIndex> = model.indexes.iter().filter(|i| i.table == t.name).cloned().collect();
     want_created.sort_by(|x, y| x.name.cmp(&y.name));
@@ -309,20 +331,45 @@ fn check_table(chk: &Chk, rep: &mut Report, db: &Db, t: &Tbl, model: &Model, sql
     true
 }
 
-/// Partial-index predicate of a stored CREATE INDEX statement, as (column, k) of `column > k`.
-fn parse_filter(index_sql: &str, partial: bool) -> Option<(String, i64)> {
+/// Partial-index predicate of a stored CREATE INDEX statement: `column > k` and further `column <> m` conjuncts.
+fn parse_filter(index_sql: &str, partial: bool) -> (Option<(String, i64)>, Vec<i64>) {
     if !partial {
-        return None;
+        return (None, vec![]);
     }
-    let toks = lex(Dialect::Sqlite, index_sql).ok()?;
-    let pos = toks.iter().rposition(|t| t.tok.is_word("WHERE"))?;
-    match parse_expr(Dialect::Sqlite, &toks[pos + 1..]).ok()? {
-        PX::Bin(l, op, r) if op == ">" => match (*l, *r) {
-            (PX::Col(c), PX::Num(k)) if c.len() == 1 => Some((c[0].clone(), k.parse().ok()?)),
-            _ => Some(("<unparsed>".into(), 0)),
-        },
-        _ => Some(("<unparsed>".into(), 0)),
+    let bad = (Some(("<unparsed>".to_string(), 0)), vec![]);
+    let Ok(toks) = lex(Dialect::Sqlite, index_sql) else { return bad };
+    let Some(pos) = toks.iter().rposition(|t| t.tok.is_word("WHERE")) else { return bad };
+    let Ok(tree) = parse_expr(Dialect::Sqlite, &toks[pos + 1..]) else { return bad };
+    fn flatten(p: PX, out: &mut Vec<PX>) {
+        match p {
+            PX::Bin(l, op, r) if op == "AND" => {
+                flatten(*l, out);
+                flatten(*r, out);
+            }
+            other => out.push(other),
+        }
     }
+    let mut parts = vec![];
+    flatten(tree, &mut parts);
+    let mut first = None;
+    let mut more = vec![];
+    for (i, p) in parts.into_iter().enumerate() {
+        match p {
+            PX::Bin(l, op, r) => match (*l, *r, op.as_str(), i) {
+                (PX::Col(c), PX::Num(k), ">", 0) if c.len() == 1 => match k.parse() {
+                    Ok(k) => first = Some((c[0].clone(), k)),
+                    Err(_) => return bad,
+                },
+                (PX::Col(c), PX::Num(k), "<>", i) if i > 0 && c.len() == 1 && first.as_ref().map(|f| f.0 == c[0]).unwrap_or(false) => match k.parse() {
+                    Ok(k) => more.push(k),
+                    Err(_) => return bad,
+                },
+                _ => return bad,
+            },
+            _ => return bad,
+        }
+    }
+    (first, more)
 }
 
 /// Behavioural probes on an empty table: constraints accept / reject what the declaration says.
@@ -440,8 +487,10 @@ fn behaviour(chk: &Chk, rep: &mut Report, db: &Db, t: &Tbl, sql: &str) -> bool {
 }
 
 /// INTEGER PRIMARY KEY columns are aliases of the rowid: NULL and DEFAULT are replaced by a fresh rowid.
+/// SQLite: a sole INTEGER primary key column is the rowid — also as the table constraint `PRIMARY KEY(x DESC)`
+/// (only the column constraint `INTEGER PRIMARY KEY DESC` is excepted, and sea-query cannot write that one).
 fn is_rowid_alias(db: &Db, t: &Tbl, c: &Col) -> bool {
-    let sole_table_pk = t.indexes.iter().any(|i| i.primary && i.cols.len() == 1 && i.cols[0].0 == c.name && i.cols[0].1 != Some(true));
+    let sole_table_pk = t.indexes.iter().any(|i| i.primary && i.cols.len() == 1 && i.cols[0].0 == c.name);
     (c.has(|s| *s == CS::PrimaryKey) || sole_table_pk) && decl_of(db, &t.name, &c.name).eq_ignore_ascii_case("integer")
 }
 
@@ -513,13 +562,13 @@ fn gen_table(rng: &mut Rng, name: &str, existing: &[Tbl]) -> Tbl {
         let k = 1 + rng.below(plain.len().min(2));
         let mut cols = plain.clone();
         rng.shuffle(&mut cols);
-        t.indexes.push(Ix { name: None, unique: false, primary: true, cols: cols[..k].iter().map(|c| (c.clone(), None, None)).collect(), index_type: None, include: vec![], nulls_not_distinct: false, if_not_exists: false, filter: None });
+        t.indexes.push(Ix { name: None, unique: false, primary: true, cols: cols[..k].iter().map(|c| (c.clone(), if rng.chance(1, 3) { Some(rng.coin()) } else { None }, None)).collect(), index_type: None, include: vec![], nulls_not_distinct: false, if_not_exists: false, filter: None, filter_more: vec![] });
     }
     if rng.chance(1, 3) && !plain.is_empty() {
         let k = 1 + rng.below(plain.len().min(2));
         let mut cols = plain.clone();
         rng.shuffle(&mut cols);
-        t.indexes.push(Ix { name: Some(format!("uq_{name}")), unique: true, primary: false, cols: cols[..k].iter().map(|c| (c.clone(), None, None)).collect(), index_type: None, include: vec![], nulls_not_distinct: false, if_not_exists: false, filter: None });
+        t.indexes.push(Ix { name: Some(format!("uq_{name}")), unique: true, primary: false, cols: cols[..k].iter().map(|c| (c.clone(), if rng.chance(1, 3) { Some(rng.coin()) } else { None }, None)).collect(), index_type: None, include: vec![], nulls_not_distinct: false, if_not_exists: false, filter: None, filter_more: vec![] });
     }
     if let Some(parent) = existing.last() {
         if rng.chance(1, 2) && !plain.is_empty() {
@@ -720,9 +769,12 @@ pub fn run_history(ctx: &Ctx, rep: &mut Report, n: u64, rng: &mut Rng, single: O
                     rng.shuffle(&mut names);
                     let cols: Vec<(String, Option<bool>, Option<u32>)> = names[..k].iter().map(|c| (c.clone(), if rng.coin() { Some(rng.coin()) } else { None }, None)).collect();
                     let filter = if rng.chance(1, 3) { plain.iter().find(|c| c.ty.is_int()).map(|c| (c.name.clone(), rng.range(0, 9))) } else { None };
-                    let ix = Ix { name: Some(format!("ix{}", model.indexes.len() + rng.below(1000) * 10)), unique: rng.chance(1, 3), primary: false, cols: cols.clone(), index_type: None, include: vec![], nulls_not_distinct: false, if_not_exists: rng.coin(), filter: filter.clone() };
+                    let filter_more: Vec<i64> = if filter.is_some() { (0..rng.pick_weighted(&[3, 2, 1])).map(|_| rng.range(10, 19)).collect() } else { vec![] };
+                    // index names are identifiers like any other: now and then one with a quote character or a blank
+                    let odd = if rng.chance(1, 6) { *rng.pick(&["\"", " x", "'", "\"\"", "é"]) } else { "" };
+                    let ix = Ix { name: Some(format!("ix{}{odd}", model.indexes.len() + rng.below(1000) * 10)), unique: rng.chance(1, 3), primary: false, cols: cols.clone(), index_type: None, include: vec![], nulls_not_distinct: false, if_not_exists: rng.coin(), filter: filter.clone(), filter_more: filter_more.clone() };
                     let sql = ix.statement(Some(&tname)).build_any(lite());
-                    model.indexes.push(MIndex { name: ix.name.clone().unwrap(), table: tname.clone(), unique: ix.unique, cols: cols.iter().map(|c| (c.0.clone(), c.1 == Some(true))).collect(), filter });
+                    model.indexes.push(MIndex { name: ix.name.clone().unwrap(), table: tname.clone(), unique: ix.unique, cols: cols.iter().map(|c| (c.0.clone(), c.1 == Some(true))).collect(), filter, filter_more });
                     ("CREATE INDEX", sql)
                 }
                 6 => {
